@@ -4,6 +4,7 @@ import (
 	"bytes"
 	"encoding/base64"
 	"encoding/json"
+	"math"
 	"reflect"
 	"strings"
 	"testing"
@@ -62,6 +63,9 @@ func TestRFC7515A1(t *testing.T) {
 			kk = NewKey("HS384", Material{HMACKey: key}, KidIgnored, "", true)
 		}
 		d := Decide(rfc7515A1Token, []Key{kk}, v)
+		if !d.Strict() {
+			t.Errorf("%s: decision is not binding: %v", name, d.Silent)
+		}
 		if (c.reason == "") != d.Accept || (c.reason != "" && d.Reason != c.reason) {
 			t.Errorf("%s: got accept=%v reason=%q silent=%v, want reason %q", name, d.Accept, d.Reason, d.Silent, c.reason)
 		}
@@ -237,19 +241,19 @@ func normalize(v any) any { // nil slices/maps vs empty ones
 
 func TestParserFlags(t *testing.T) {
 	for text, want := range map[string]Flags{
-		`{"a":1,"a":2}`:             {DuplicateMember: true},
-		`{"a":{"b":1,"b":1}}`:       {DuplicateMember: true},
-		`"\ud800"`:                  {LoneSurrogate: true},
-		`"\udc00\ud800"`:            {LoneSurrogate: true},
-		`"😀"`:            {},
-		`"\ud83dx"`:                 {LoneSurrogate: true},
-		`1e3`:                       {OddNumber: true},
-		`-0`:                        {OddNumber: true},
-		`9007199254740993`:          {OddNumber: true},
-		`900719925474099`:           {},
-		`-123456789012.345`:         {},
-		`0.1234567890123456`:        {OddNumber: true},
-		`1700000000.0`:              {},
+		`{"a":1,"a":2}`:       {DuplicateMember: true},
+		`{"a":{"b":1,"b":1}}`: {DuplicateMember: true},
+		`"\ud800"`:            {LoneSurrogate: true},
+		`"\udc00\ud800"`:      {LoneSurrogate: true},
+		`"😀"`:                 {},
+		`"\ud83dx"`:           {LoneSurrogate: true},
+		`1e3`:                 {OddNumber: true},
+		`-0`:                  {OddNumber: true},
+		`9007199254740993`:    {OddNumber: true},
+		`900719925474099`:     {},
+		`-123456789012.345`:   {},
+		`0.1234567890123456`:  {OddNumber: true},
+		`1700000000.0`:        {},
 		strings.Repeat("[", 33) + strings.Repeat("]", 33): {Deep: true},
 		strings.Repeat("[", 32) + strings.Repeat("]", 32): {},
 	} {
@@ -275,4 +279,113 @@ func TestValidatorValid(t *testing.T) {
 	if (Validator{ExpectedAud: sp("a"), IgnoreAud: true}).Valid() == nil {
 		t.Errorf("aud conflict")
 	}
+}
+
+// TestFractionalOddAndOpenConstructs: the three-valued part of the decision. now = 1700000000,
+// skew 60 s: exp needs to be above 1699999940, nbf / iat at most 1700000060.
+func TestFractionalOddAndOpenConstructs(t *testing.T) {
+	key := bytes.Repeat([]byte{7}, 32)
+	m := Material{HMACKey: key}
+	k := NewKey("HS256", m, KidIgnored, "", true)
+	mk := func(header, payload string) string {
+		unsigned := B64Encode([]byte(header)) + "." + B64Encode([]byte(payload))
+		sig, err := m.Sign("HS256", []byte(unsigned))
+		if err != nil {
+			t.Fatal(err)
+		}
+		return unsigned + "." + B64Encode(sig)
+	}
+	base := Validator{Now: time.Unix(1700000000, 0), Skew: time.Minute}
+	const hdr = `{"alg":"HS256"}`
+	type want struct {
+		strict, accept bool
+		reason         string
+	}
+	for _, c := range []struct {
+		name, header, payload string
+		mod                   func(*Validator)
+		want                  want
+	}{
+		{"fractional exp far in the future", hdr, `{"exp":1700003600.5}`, nil, want{true, true, "accepted"}},
+		{"fractional exp far in the past", hdr, `{"exp":1600000000.25}`, nil, want{true, false, "expired"}},
+		{"fractional exp just above the bound", hdr, `{"exp":1699999941.5}`, nil, want{true, true, "accepted"}},
+		{"fractional exp straddling the bound", hdr, `{"exp":1699999940.5}`, nil, want{false, false, "undecided"}},
+		{"fractional exp just below the bound", hdr, `{"exp":1699999939.5}`, nil, want{true, false, "expired"}},
+		{"fractional nbf straddling", hdr, `{"exp":1800000000,"nbf":1700000060.5}`, nil, want{false, false, "undecided"}},
+		{"fractional nbf below", hdr, `{"exp":1800000000,"nbf":1700000059.5}`, nil, want{true, true, "accepted"}},
+		{"fractional nbf above", hdr, `{"exp":1800000000,"nbf":1700000061.5}`, nil, want{true, false, "not-yet-valid"}},
+		{"straddling exp but nbf definitely fails", hdr, `{"exp":1699999940.5,"nbf":1700000062}`, nil, want{true, false, "not-yet-valid"}},
+		{"straddling exp but iss unexpected", hdr, `{"exp":1699999940.5,"iss":"x"}`, nil, want{true, false, "iss-present-but-not-expected"}},
+		{"fractional iat unchecked", hdr, `{"exp":1800000000,"iat":1700000060.5}`, nil, want{true, true, "accepted"}},
+		{"fractional iat straddling", hdr, `{"exp":1800000000,"iat":1700000060.5}`, func(v *Validator) { v.ExpectIssuedInThePast = true }, want{false, false, "undecided"}},
+		{"iat missing", hdr, `{"exp":1800000000}`, func(v *Validator) { v.ExpectIssuedInThePast = true }, want{true, false, "iat-missing"}},
+		{"fraction below zero", hdr, `{"exp":1800000000,"nbf":-0.5}`, nil, want{false, false, "undecided"}},
+		{"fraction above max", hdr, `{"exp":253402300799.5}`, nil, want{false, false, "undecided"}},
+		{"well above max", hdr, `{"exp":253402300801.5}`, nil, want{true, false, "exp-out-of-range"}},
+		{"exponent form far away", hdr, `{"exp":1.8e9}`, nil, want{true, true, "accepted"}},
+		{"exponent form one second above the bound", hdr, `{"exp":1699999941e0}`, nil, want{false, false, "undecided"}},
+		{"exponent form three seconds above the bound", hdr, `{"exp":1699999943e0}`, nil, want{true, true, "accepted"}},
+		{"huge", hdr, `{"exp":1e300}`, nil, want{true, false, "exp-out-of-range"}},
+		{"odd custom number", hdr, `{"exp":1800000000,"c":[1,{"d":1e3}],"e":2}`, nil, want{true, true, "accepted"}},
+		{"odd custom number, expired", hdr, `{"exp":1600000000,"c":-0}`, nil, want{true, false, "expired"}},
+		{"odd header number", `{"alg":"HS256","x":1e3}`, `{"exp":1800000000}`, nil, want{true, true, "accepted"}},
+		{"number beyond float64", hdr, `{"exp":1800000000,"c":1e400}`, nil, want{false, false, "payload-json"}},
+		{"byte order mark before the payload", hdr, "\ufeff" + `{"exp":1800000000}`, nil, want{false, false, "undecided"}},
+		{"byte order mark before an expired payload", hdr, "\ufeff" + `{"exp":1600000000}`, nil, want{true, false, "expired"}},
+		{"byte order mark before broken JSON", hdr, "\ufeff" + `{"exp":}`, nil, want{true, false, "payload-json"}},
+		{"byte order mark before the header", "\ufeff" + hdr, `{"exp":1800000000}`, nil, want{false, false, "undecided"}},
+		{"byte order mark inside", hdr, `{"exp":1800000000}` + "\ufeff", nil, want{true, false, "payload-json"}},
+		{"typ number, ignored", `{"alg":"HS256","typ":1}`, `{"exp":1800000000}`, func(v *Validator) { v.IgnoreTyp = true }, want{false, false, "undecided"}},
+		{"typ number, ignored, expired", `{"alg":"HS256","typ":1}`, `{"exp":1600000000}`, func(v *Validator) { v.IgnoreTyp = true }, want{true, false, "expired"}},
+		{"typ number, nothing expected", `{"alg":"HS256","typ":1}`, `{"exp":1800000000}`, nil, want{true, false, "typ-present-but-not-expected"}},
+		{"typ number, expected", `{"alg":"HS256","typ":1}`, `{"exp":1800000000}`, func(v *Validator) { v.ExpectedTyp = sp("1") }, want{true, false, "typ-not-a-string"}},
+	} {
+		v := base
+		if c.mod != nil {
+			c.mod(&v)
+		}
+		d := Decide(mk(c.header, c.payload), []Key{k}, v)
+		if d.Strict() != c.want.strict || d.Accept != c.want.accept || !strings.HasPrefix(d.Reason, c.want.reason) {
+			t.Errorf("%s: strict=%v accept=%v reason=%q silent=%v, want %+v", c.name, d.Strict(), d.Accept, d.Reason, d.Silent, c.want)
+		}
+		// a token with a wrong signature is rejected bindingly whatever open construct it contains
+		// (the parser-dependent constructs are flagged before the signature is looked at)
+		tok := mk(c.header, c.payload)
+		if d := Decide(tok[:len(tok)-4]+"AAAA", []Key{k}, v); d.Accept || d.Reason != "signature" || d.Strict() == strings.Contains(c.payload, "1e400") {
+			t.Errorf("%s with a wrong MAC: %+v", c.name, d)
+		}
+	}
+	d := Decide(mk(hdr, `{"exp":1800000000,"c":[1,{"d":1e3}],"e":2,"f":0.5}`), []Key{k}, base)
+	if len(d.OddClaims) != 1 || !d.OddClaims["c"] {
+		t.Errorf("OddClaims = %v, want c only", d.OddClaims)
+	}
+	if _, _, odd, err := ParseJSONMembers([]byte(`[1e3]`)); err != nil || len(odd) != 0 {
+		t.Errorf("array: %v %v", odd, err)
+	}
+}
+
+// TestTimeRulesMonotone: the two-ended evaluation is sound because every time rule is monotone in
+// the timestamp: whenever the rule at floor and at ceil agree, the rule at the truncated and at the
+// rounded value give the same answer.
+func TestTimeRulesMonotone(t *testing.T) {
+	rapid.Check(t, func(rt *rapid.T) {
+		now := time.Unix(rapid.Int64Range(1000, 253402300799-1000).Draw(rt, "now"), rapid.Int64Range(0, 999999999).Draw(rt, "nsec"))
+		skew := time.Duration(rapid.Int64Range(0, int64(MaxSkew)).Draw(rt, "skew"))
+		f := float64(now.Unix()+rapid.Int64Range(-700, 700).Draw(rt, "off")) + rapid.SampledFrom([]float64{0, 0.25, 0.5, 0.75, 0.999}).Draw(rt, "frac")
+		tc := timeClaim{present: true, lo: math.Floor(f), hi: math.Ceil(f)}
+		for name, rule := range map[string]func(sec float64) bool{
+			"exp": func(sec float64) bool { return cmpSeconds(seconds(sec), now, -skew) > 0 },
+			"nbf": func(sec float64) bool { return cmpSeconds(seconds(sec), now, skew) <= 0 },
+		} {
+			got := tc.both(rule)
+			for _, r := range []float64{math.Trunc(f), math.Round(f)} {
+				if got != undecided && (got == yes) != rule(r) {
+					rt.Fatalf("%s: value %v now %v skew %v: both ends say %v, rounding to %v says %v", name, f, now, skew, got, r, rule(r))
+				}
+			}
+			if f == math.Trunc(f) && got == undecided {
+				rt.Fatalf("%s: whole value %v undecided", name, f)
+			}
+		}
+	})
 }
